@@ -216,6 +216,8 @@ RULE = ("programs = behaviours of Gen.tla over the constructs C18 names (env.NAM
 
 def main(tier, replay=None):
     t0 = time.time()
+    if replay:
+        return c01.do_replay(PID, replay, work_strict, worker_for={"env-nostrict": work_nostrict, "env2-nostrict": work_nostrict})
     fams = QUICK if tier == "quick" else THOROUGH
     extra = {}
 
